@@ -81,7 +81,7 @@ def rule_typestate(ctx: Ctx) -> None:
     allowed = {
         f"{ORD}.Order.cancel": {f"{OM}.cancel_order", f"{ORD}.MarketOrder.not_filled", f"{ORD}.StopOrder.not_filled"},
         f"{ORD}.Order.add_fill": {f"{OM}._process_order"},
-        f"{ORD}.Order.not_filled": {f"{OM}._process_order.order_not_filled"},
+        f"{ORD}.Order.not_filled": {f"{OM}._process_order", f"{OM}._process_order.order_not_filled"},
         f"{OM}._process_order": {f"{OM}.on_bar_event"},
     }
     for target, who in allowed.items():
@@ -147,7 +147,7 @@ def rule_fill_or_kill(ctx: Ctx) -> None:
     po = ctx.func(f"{OM}._process_order")
     g = ctx.cfg(po)
     tests = [n for n in g.nodes if n.kind == "test" and "not in balance_updates" in ast.unparse(n.ast)]
-    okn = bool(tests) and any(isinstance(x, ast.Call) and (A.call_name(x) or "") == "order_not_filled" for s in tests[0].ast.parent.body for x in ast.walk(s))  # type: ignore
+    okn = bool(tests) and any(isinstance(x, ast.Call) and (A.call_name(x) or "").split(".")[-1] in ("not_filled", "order_not_filled") for s in tests[0].ast.parent.body for x in ast.walk(s))  # type: ignore
     ctx.check(okn, "C05.2", "a bar that yields no base/quote pair triggers the not-filled callback", po, tests[0].ast if tests else po.node,
               "order_not_filled() when base or quote is missing", "an empty fill no longer triggers not_filled")
 
@@ -192,7 +192,7 @@ def rule_events(ctx: Ctx) -> None:
         (f"{OM}.add_order", "self._orders.add", "acceptance"),
         (f"{OM}.cancel_order", "order.cancel", "cancellation"),
         (f"{OM}._process_order", "order.add_fill", "fill"),
-        (f"{OM}._process_order.order_not_filled", "order.not_filled", "fill-or-kill closure"),
+        (f"{OM}._process_order", "order.not_filled", "fill-or-kill closure"),
     ]
     for q, trigger, what in specs:
         fn = ctx.func(q)
